@@ -807,10 +807,16 @@ void retrieveUnitsDependencies(const ModelPtr &flatModel, const ModelPtr &model,
         if (!reference.empty() && !isStandardUnitName(reference) && model->hasUnits(reference)) {
             auto childUnits = model->units(reference);
             if (childUnits->isImport()) {
-                size_t flatModelUnitsIndex = flatModel->unitsCount();
-                flatModel->addUnits(childUnits);
-                flattenUnitsImports(flatModel, childUnits, flatModelUnitsIndex, component);
-            } else {
+                // Instantiate the imported units where they are referred to, then treat them like any other units the
+                // dependent units need: equal units that the flat model already has must not be added a second time.
+                size_t childUnitsIndex = 0;
+                while (model->units(childUnitsIndex) != childUnits) {
+                    ++childUnitsIndex;
+                }
+                flattenUnitsImports(model, childUnits, childUnitsIndex, component);
+                childUnits = model->units(childUnitsIndex);
+            }
+            {
                 auto childChangedNames = transferUnitsRenamingIfRequired(model, flatModel, childUnits, component);
                 auto childChange = childChangedNames.find(reference);
                 if ((childChange != childChangedNames.end()) && (childChange->second != childUnits->name())) {
